@@ -202,4 +202,53 @@ func zzFmtGen(cfg *zzGenCfg) {
 	zzWitness("end")
 }
 
+// ZZC06Programs: every program text used by the other evaluator harnesses
+// (type-soundness programs, alias scenarios, inference literals, determinism
+// programs, the rule skeleton) is also a formatting input.
+func ZZC06Programs() {
+	var texts []string
+	for _, c := range zzAliases {
+		texts = append(texts, "a := 1\nb := 2\n"+zzC09Funcs+c.src+"print a b\n")
+	}
+	for _, src := range zzC08Progs {
+		texts = append(texts, src)
+	}
+	texts = append(texts, zzC05Program(nil, ""))
+	for _, c := range zzC02ProgramTexts() {
+		texts = append(texts, c)
+	}
+	for _, l := range zzC04InferLiterals() {
+		texts = append(texts, "x := [1]\ny := [\"s\"]\nv := "+l+"\nprint (typeof v)\nprint x y\n")
+	}
+	// literals converted to another type by their context (any-typed targets)
+	texts = append(texts,
+		"x:[]any\nx = [1 2 3] // conv\nprint x\n",
+		"m:{}any\nm = {a:1 b:[2]}\nprint m\n",
+		"x:[][]any\nx = [\n  [1] // one\n  [2 3]\n]\nprint x\n",
+		"func f a:[]any m:{}any\n  print a m\nend\nf [1 2] {k:1}\n",
+		"func g:[]any\n  return [1 \"s\" [2]]\nend\nprint (g)\n",
+		"v:any\nv = [1 2]\nv = {a:[1]}\nprint v\n",
+		"func h a:any...\n  print a\nend\nh [1] {b:2} 3\n",
+		"func f:num\n  if true\n    return 1\n    // after return\n  end\n  return 2\n  // trailing\nend\nprint (f)\n",
+		"while true\n  break\n  // after break\n\n  // more\nend\n",
+	)
+	k := zzChoice("text", len(texts))
+	out := zzCheckFormat(texts[k], "programs "+strconv.Itoa(k), false)
+	if out == "" {
+		zzReach("not-accepted") // e.g. the determinism programs that are deliberately invalid
+	} else {
+		zzReach("programs-ok")
+	}
+	zzWitness("end")
+}
+
+// ZZC06Docs: every documented example is a formatting input.
+func ZZC06Docs() {
+	k := zzChoice("example", len(zzDocExamples))
+	out := zzCheckFormat(zzDocExamples[k].src, "doc example "+strconv.Itoa(k), false)
+	zzA6(out != "", "C06 docs: documented examples are accepted")
+	zzReach("docs-ok")
+	zzWitness("end")
+}
+
 var _ = parser.Parse
